@@ -203,6 +203,17 @@ func SameF(a, b float64) bool {
 	return math.Float64bits(a) == math.Float64bits(b)
 }
 
+// EqR: equal up to rounding. Under gosym's exact-real interpretation this is equality
+// over the reals; natively a relative tolerance of 1e-9 is used.
+func EqR(a, b float64) bool {
+	if a == b || (a != a && b != b) {
+		return true
+	}
+	d := math.Abs(a - b)
+	m := math.Max(1, math.Max(math.Abs(a), math.Abs(b)))
+	return d <= 1e-9*m
+}
+
 // EqF: both NaN, or IEEE-equal.
 func EqF(a, b float64) bool { return (a != a && b != b) || a == b }
 
